@@ -43,7 +43,7 @@ class Light(light.Light):
 class MultizoneLight(Light, i_controller.MultizoneLight):
     def __init__(self, impl, num_zones=None):
         super().__init__(impl)
-        self._num_zones = num_zones or len(self.get_zone_colors())
+        self._num_zones = num_zones or len(self.get_zone_colors() or [])
 
     def get_num_zones(self) -> int:
         return self._num_zones
